@@ -98,6 +98,9 @@ def corpus():
         "T|new 4;property 1 2 1 1",
         "T|new 8", "T|new 9", "T|new -1",
         # F75 / F76 / F77 / F78 as correspondence cases (exception class instead of a crash)
+        "#V Either(Range,Float) | f5.5 | set", "#V Either(Range,Str) | f5.5 | set",
+        "#V Either(Range,Float) | f5.5 | validate", "R|vn|set x 10 2 dflt=9 notify=0:RuntimeError",
+        "T|new 3;delegate 4;dprobe", "T|new 3;delegate 100;dprobe",
         "T|new 3;probe", "T|new 7;probe", "T|new 4;property 1 2 1 1;post 0;probe", "T|new 0;default 5;probe",
         "#PROG " + json.dumps({"family": "raw-ctrait", "traits": {"i": "int"}, "steps": [
             ["new", "o"], ["raw_ctrait", 3, "bare", 0, "get"], ["gc"]]}, sort_keys=True),
@@ -123,6 +126,8 @@ def generate(rng, tier):
     for _ in range(nR):
         yield L.gen_r(rng)
     for c in C14.gen_T(rng, True, probes=True):
+        yield c
+    for c in L.gen_v(True):
         yield c
     for _ in range(nT):
         yield C14.random_T(rng)
@@ -177,6 +182,8 @@ def run_impl(case):
         return C14.run_t(case)
     if case.startswith("#PROG "):
         return run_prog(case)
+    if case.startswith("#V "):
+        return L.run_v(case)
     raise ValueError(case)
 
 
